@@ -384,7 +384,14 @@ class NameBinding(Binding):
             elif isinstance(node, ast.ExceptHandler):
                 node.name = new_name
             elif isinstance(node, (ast.Global, ast.Nonlocal)):
-                node.names = [new_name if n == self._name else n for n in node.names]
+                # Another binding named in this statement may already have been given the name this binding has now,
+                # so only touch the entries that have not been renamed yet
+                renamed = getattr(node, 'renamed_names', set())
+                for i, n in enumerate(node.names):
+                    if n == self._name and i not in renamed:
+                        node.names[i] = new_name
+                        renamed.add(i)
+                node.renamed_names = renamed
             elif isinstance(node, ast.arguments):
 
                 rename_vararg = (node.vararg == self._name) and not getattr(node, 'vararg_renamed', False)
